@@ -499,11 +499,34 @@ func vp9DecCase(x *Ctx, mk func(c *Case) (vp9Desc, []byte), nCuts int) {
 			}
 			c.Tag(tag)
 			p := &codecs.VP9Packet{}
+			// two cases out of three decode into a USED receiver: it first decodes one or two other
+			// well-formed descriptors (every optional field populated in the first). "Decodes to
+			// exactly the encoded values" must not depend on what the receiver held before; the
+			// model's result is independent of the receiver (c12_decoder is for any receiver).
+			if c.R.Chance(2, 3) {
+				prev := randVp9Desc(c.R)
+				prev.I, prev.M, prev.L, prev.V = true, true, true, true
+				prev.SS = randVp9SS(c.R, false)
+				callUnmarshal(p, append(prev.encode(), 1, 2, 3))
+				if c.R.Bool() {
+					prev2 := randVp9Desc(c.R)
+					callUnmarshal(p, append(prev2.encode(), 9))
+				}
+				c.Tag("used-receiver")
+			}
 			r := callUnmarshal(p, wire[:k])
 			head := false
 			try(func() { head = p.IsPartitionHead(wire[:k]) })
 			r.write(&c.O)
-			writeVP9Md(&c.O, p)
+			if r.err || r.panicked {
+				// a rejected descriptor leaves no metadata the property speaks about; report what a
+				// fresh receiver holds after rejecting the same bytes (that is what the model describes)
+				q := &codecs.VP9Packet{}
+				callUnmarshal(q, wire[:k])
+				writeVP9Md(&c.O, q)
+			} else {
+				writeVP9Md(&c.O, p)
+			}
 			c.O.Bool(head)
 		})
 	}
